@@ -3,6 +3,7 @@ package main
 import (
 	"encoding/json"
 	"fmt"
+	"sort"
 	"strings"
 
 	js "github.com/google/jsonschema-go/jsonschema"
@@ -23,10 +24,25 @@ type decorator struct {
 	kf    string
 }
 
-func (dc *decorator) schemaPos(d Doc) Doc {
+// schemaPos decorates the subschema d; schemaPosB additionally biases the decoration
+// towards one keyword, used where a sibling or parent keyword refers to this position
+// (a property that the parent requires gets a default, and so on).
+func (dc *decorator) schemaPos(d Doc) Doc { return dc.schemaPosB(d, "") }
+
+func (dc *decorator) schemaPosB(d Doc, boost string) Doc {
 	o, ok := d.(DObj)
 	if !ok {
 		return d
+	}
+	required := map[string]bool{}
+	if rq, ok := o.get("required"); ok {
+		if a, ok := rq.(DArr); ok {
+			for _, e := range a {
+				if s, ok := e.(DStr); ok {
+					required[string(s)] = true
+				}
+			}
+		}
 	}
 	out := DObj{}
 	has := map[string]bool{}
@@ -50,7 +66,13 @@ func (dc *decorator) schemaPos(d Doc) Doc {
 			if mo, ok := v.(DObj); ok {
 				nm := DObj{}
 				for _, mm := range mo {
-					nm = append(nm, DMem{mm.K, dc.schemaPos(mm.V)})
+					b := ""
+					if m.K == "properties" && required[mm.K] && dc.r.chance(1, 2) {
+						b = "default"
+					} else if m.K == "properties" && dc.r.chance(1, 8) {
+						b = pick(dc.r, []string{"readOnly", "writeOnly", "deprecated", "default"})
+					}
+					nm = append(nm, DMem{mm.K, dc.schemaPosB(mm.V, b)})
 				}
 				v = nm
 			}
@@ -91,6 +113,13 @@ func (dc *decorator) schemaPos(d Doc) Doc {
 				out = append(DObj{{k, v}}, out...)
 			}
 		}
+	}
+	switch boost {
+	case "default":
+		add("default", g.value(2), "default")
+		dc.kinds["required+default"]++
+	case "readOnly", "writeOnly", "deprecated":
+		add(boost, DBool(true), "flag")
 	}
 	for n := r.intn(3); n > 0 && r.chance(1, 2); n-- {
 		switch r.intn(14) {
@@ -237,19 +266,37 @@ func init() {
 			g.draft7 = true
 		}
 		base := g.document(2 + r.intn(2))
+		var fixed []Doc
+		if r.chance(2, 5) {
+			// a small schema with enumerated instances, densely decorated
+			switch r.intn(4) {
+			case 0, 1:
+				base, fixed = g.smallObjDoc()
+			case 2:
+				base, fixed = g.smallArrDoc()
+			default:
+				base, fixed = g.smallScalarDoc()
+			}
+			if g.draft7 {
+				base = append(DObj{{"$schema", DStr("http://json-schema.org/draft-07/schema#")}}, base.(DObj)...)
+			}
+		}
 		kws := map[string]int{}
 		keywordsOf(base, kws)
 		g.smallNums = kws["multipleOf"] > 0
 		dc := &decorator{r: r, d7: g.draft7, kinds: map[string]int{}}
 		dec := dc.schemaPos(base)
 		c := &DecorCase{ID: id, Base: base, Dec: dec}
-		for i := 0; i < 5; i++ {
+		for _, d := range fixed {
+			c.Insts = append(c.Insts, canonInst(d))
+		}
+		for i := 0; i < 5 && fixed == nil; i++ {
 			d := g.instFor(base, base, 3)
 			if !(g.smallNums && hasBigNumber(d)) {
 				c.Insts = append(c.Insts, canonInst(d))
 			}
 		}
-		for i := 0; i < 5 && len(c.Insts) > 0; i++ {
+		for i := 0; i < 5 && len(c.Insts) > 0 && fixed == nil; i++ {
 			d := g.mutate(pickDocOf(r, c.Insts, g))
 			if !(g.smallNums && hasBigNumber(d)) {
 				c.Insts = append(c.Insts, canonInst(d))
@@ -259,6 +306,7 @@ func init() {
 		for k, n := range dc.kinds {
 			ks = append(ks, fmt.Sprintf("%s%d", k, n))
 		}
+		sort.Strings(ks)
 		nt := 0
 		if len(dc.kinds) > 0 {
 			nt = 1
@@ -266,6 +314,122 @@ func init() {
 		c.Note = fmt.Sprintf("nontrivial=%d shape=%s|%s", nt, shapeOf(base), strings.Join(ks, "."))
 		return c
 	}
+}
+
+// smallObjDoc: a small object schema whose verdict is decided by one or two keywords over
+// the names a, b, c, with instances enumerating subsets of those names - so that a
+// decoration on any position that interacts with required/properties/dependentRequired/
+// additionalProperties shows in a verdict.
+func (g *genCtx) smallObjDoc() (Doc, []Doc) {
+	r := g.r
+	leaf := func() Doc {
+		return pick(r, []Doc{DBool(true), DObj{}, DObj{{"type", DStr("integer")}}, DObj{{"minimum", DNum("0")}}, DObj{{"type", DStr("string")}}, DObj{{"const", DNum("1")}}})
+	}
+	names := []string{"a", "b", "c"}
+	props := DObj{}
+	for _, nm := range names[:1+r.intn(3)] {
+		props = append(props, DMem{nm, leaf()})
+	}
+	o := DObj{{"properties", props}}
+	if r.chance(3, 4) {
+		o = append(o, DMem{"required", toDoc(shuffled(r, names)[:1+r.intn(2)])})
+	}
+	switch r.intn(8) {
+	case 0:
+		o = append(o, DMem{"additionalProperties", DBool(false)})
+	case 1:
+		o = append(o, DMem{"dependentRequired", DObj{{pick(r, names), toDoc([]string{pick(r, names)})}}})
+	case 2:
+		o = append(o, DMem{"minProperties", DNum(pick(r, []string{"1", "2"}))})
+	case 3:
+		o = append(o, DMem{"patternProperties", DObj{{"^[ab]$", leaf()}}})
+	case 4:
+		o = append(o, DMem{"unevaluatedProperties", DBool(false)})
+	case 5:
+		o = append(o, DMem{"propertyNames", DObj{{"maxLength", DNum("1")}}})
+	case 6:
+		o = DObj{{"allOf", DArr{o, DObj{{"properties", DObj{{pick(r, names), leaf()}}}}}}}
+	}
+	if r.chance(1, 3) {
+		o = append(DObj{{"type", DStr("object")}}, o...)
+	}
+	vals := []Doc{DNum("1"), DNum("0"), DNum("-1"), DStr("s"), DNum("1.5"), DNull{}}
+	var insts []Doc
+	for mask := 0; mask < 8; mask++ {
+		in := DObj{}
+		for i, nm := range names {
+			if mask&(1<<i) != 0 {
+				in = append(in, DMem{nm, vals[r.intn(2+r.intn(len(vals)-1))]})
+			}
+		}
+		insts = append(insts, in)
+	}
+	insts = append(insts, DObj{{"zz", DNum("1")}}, DNum("1"), DArr{})
+	return o, insts
+}
+
+// smallArrDoc / smallScalarDoc: the same idea for arrays and scalars.
+func (g *genCtx) smallArrDoc() (Doc, []Doc) {
+	r := g.r
+	leaf := func() Doc {
+		return pick(r, []Doc{DBool(true), DObj{{"type", DStr("integer")}}, DObj{{"minimum", DNum("1")}}, DObj{{"const", DStr("s")}}})
+	}
+	o := DObj{}
+	if r.chance(2, 3) {
+		o = append(o, DMem{"prefixItems", DArr{leaf(), leaf()}[:1+r.intn(2)]})
+	}
+	switch r.intn(6) {
+	case 0:
+		o = append(o, DMem{"items", leaf()})
+	case 1:
+		o = append(o, DMem{"contains", leaf()}, DMem{"minContains", DNum(pick(r, []string{"0", "1", "2"}))})
+	case 2:
+		o = append(o, DMem{"uniqueItems", DBool(true)})
+	case 3:
+		o = append(o, DMem{"minItems", DNum("2")})
+	case 4:
+		o = append(o, DMem{"unevaluatedItems", DBool(false)})
+	default:
+		o = append(o, DMem{"maxItems", DNum("2")}, DMem{"items", leaf()})
+	}
+	vals := []Doc{DNum("1"), DNum("0"), DStr("s"), DNum("2"), DNum("1.0")}
+	var insts []Doc
+	for n := 0; n <= 3; n++ {
+		for k := 0; k < 2; k++ {
+			a := DArr{}
+			for i := 0; i < n; i++ {
+				a = append(a, pick(r, vals))
+			}
+			insts = append(insts, a)
+		}
+	}
+	insts = append(insts, DStr("s"))
+	return o, insts
+}
+
+func (g *genCtx) smallScalarDoc() (Doc, []Doc) {
+	r := g.r
+	o := DObj{}
+	for _, k := range shuffled(r, []int{0, 1, 2, 3, 4, 5, 6})[:1+r.intn(2)] {
+		switch k {
+		case 0:
+			o = append(o, DMem{"type", DStr(pick(r, []string{"integer", "number", "string", "null", "boolean"}))})
+		case 1:
+			o = append(o, DMem{"minimum", DNum(pick(r, []string{"0", "1", "2"}))})
+		case 2:
+			o = append(o, DMem{"maxLength", DNum(pick(r, []string{"0", "1", "2"}))})
+		case 3:
+			o = append(o, DMem{"enum", DArr{DNum("1"), DStr("a"), DNull{}}})
+		case 4:
+			o = append(o, DMem{"const", pick(r, []Doc{DNum("1"), DStr("ab"), DBool(false)})})
+		case 5:
+			o = append(o, DMem{"not", DObj{{"type", DStr(pick(r, []string{"integer", "string"}))}}})
+		default:
+			o = append(o, DMem{"anyOf", DArr{DObj{{"type", DStr("string")}}, DObj{{"minimum", DNum("1")}}}})
+		}
+	}
+	insts := []Doc{DNum("0"), DNum("1"), DNum("2"), DNum("1.5"), DStr(""), DStr("a"), DStr("ab"), DStr("abc"), DNull{}, DBool(false), DBool(true)}
+	return o, insts
 }
 
 func pickDocOf(r *rng, insts []Inst, g *genCtx) Doc {
